@@ -31,8 +31,9 @@ RULE = (
     "new-beartype/old-typeguard/none/method/dataclass/context/one shared re-entered context object; exit in return/Exception/KeyboardInterrupt/custom BaseException/"
     "CancelledError/GeneratorExit/ill-typed parameter/ill-typed return) with a nested body, make-generator / make-coroutine "
     "(driven after the creating call returned; a third of the generators are advanced one step right away, inside the creating frame's caller). After every node the bindings transcript is compared with a model stack. "
-    "Non-trivial = program with nesting depth>=2 containing an exceptional exit below a frame that afterwards checks a name the "
-    "callee had also bound (to a different size); distinct by program text."
+    "Non-trivial = program with nesting depth>=2 containing an exceptional exit of a nested call, a generator/coroutine that outlives its creating call, "
+    "or a return annotation over a name that only the body bound (the narrower class 'a frame checks, after an exceptional exit below it, a name the callee had "
+    "bound to another size' is counted separately as conflict-after-exceptional-exit); distinct by program text."
 )
 ASSUMPTIONS = [
     "no_type_check functions are excluded (C19 makes them plain code)",
@@ -62,7 +63,7 @@ P = Shaped[np.ndarray, "p"]
 RET_AXIS = Shaped[np.ndarray, "p vfret"]
 RET_STRUCT = PyTree[int, "VfS"]
 KINDS = ["new-typeguard", "new-beartype", "old-typeguard", "none", "method", "dataclass", "context", "new-typeguard", "old-beartype", "context-shared", "context-shared",
-         "plain-typeguard", "plain-beartype"]  # plain-*: new-style checker, but no jaxtyping annotation in the signature
+         "plain-typeguard", "plain-beartype", "bare-beartype", "bare-typeguard"]  # plain-*: new-style checker, but no jaxtyping annotation in the signature; bare-*: no annotation at all
 EXITS = ["return", "return", "exc", "exc", "bad-param", "bad-return"]
 
 
@@ -141,8 +142,8 @@ class Interp:
 
     def do_call(self, n):
         kind, exit_, psize, k = n["kind"], n["exit"], n["psize"], n["k"]
-        has_checker = kind not in ("none", "context", "context-shared", "plain-typeguard", "plain-beartype")
-        if kind.startswith("plain-") and exit_ == "bad-return":
+        has_checker = kind not in ("none", "context", "context-shared", "plain-typeguard", "plain-beartype", "bare-typeguard", "bare-beartype")
+        if kind.startswith(("plain-", "bare-")) and exit_ == "bad-return":
             exit_ = "return"
         if not has_checker and exit_ in ("bad-param", "bad-return"):
             exit_ = "return"
@@ -236,6 +237,13 @@ class Interp:
                             fn = jaxtyped(typechecker=gc.checker(kind[6:]))(raw_plain)
                             if exit_ == "bad-param":
                                 arg, k = np.zeros((psize,)), "not-an-int"
+                        elif kind.startswith("bare-"):
+                            # a completely unannotated signature: nothing to check, but the call is a jaxtyped call all the same
+                            def raw_bare(x, k):
+                                body()
+                                return x
+
+                            fn = jaxtyped(typechecker=gc.checker(kind[5:]))(raw_bare)
                         elif kind.startswith("new-"):
                             fn = jaxtyped(typechecker=gc.checker(kind[4:]))(raw)
                         else:
@@ -372,7 +380,8 @@ def check_program(ctx, program):
         raise Violation("toplevel-stateful", program, "after the program, top-level checks with conflicting sizes do not both pass (a context was left open)")
     it.drive_pending()
     depth = max_depth(program["nodes"])
-    nontrivial = depth >= 2 and "conflict-after-exceptional-exit" in it.flags
+    nontrivial = depth >= 2 and bool({"conflict-after-exceptional-exit", "exceptional-exit", "exceptional-exit-base", "return-annotation-over-body-bound-name"} & it.flags
+                                     or it.pending)
     ctx.note(program, nontrivial,
              classes=[f"depth-{min(depth, 5)}"] + sorted(it.flags) + [f"pending-{min(len(it.pending), 2)}"],
              sample=program)
